@@ -102,6 +102,13 @@ func parseField(toks tokenizer) (Field, tokenizer) {
 	order, toks2 := toks.keyOrOp()
 	f.OrderOff = order.Off
 	if order.Kind == 'w' || order.Kind == 'q' {
+		if order.Tok == "fixed" {
+			// "fixed" is how Field.Order represents a
+			// parenthesized list, not a named order.
+			// Accepting it would yield an empty list.
+			_, toks = toks.error("unknown order \"fixed\"")
+			return f, toks
+		}
 		f.Order = order.Tok
 		return f, toks2
 	}
